@@ -49,6 +49,8 @@ Record inv (s : st) : Prop := {
 (* ---- tactics ------------------------------------------------------------------------------------------- *)
 Ltac case_hyp H :=
   repeat match type of H with
+  | (let _ := _ in _) = Some _ => cbv zeta in H
+  | (match (if ?d then _ else _) with _ => _ end) = Some _ => let E := fresh "E" in destruct d eqn:E; try discriminate H
   | (match ?d with _ => _ end) = Some _ => let E := fresh "E" in destruct d eqn:E; try discriminate H
   | (if ?d then _ else _) = Some _ => let E := fresh "E" in destruct d eqn:E; try discriminate H
   end.
@@ -96,6 +98,12 @@ Ltac prep_b :=
   | H : is_nil _ = true |- _ => apply is_nil_true in H
   | H : is_nil _ = false |- _ => apply is_nil_false in H
   end.
+
+Ltac split_or :=
+  repeat match goal with
+  | H : _ = false \/ _ |- _ => destruct H
+  | H : _ <> _ \/ _ |- _ => destruct H
+  end; prep_b.
 
 (* how every weight changes when coroutine c (x, at pc P) becomes v in list l *)
 Ltac cfacts l c x v G :=
@@ -375,4 +383,89 @@ Ltac open_goal :=
   constructor; unfold RT, NF, WT, cnt, pcw, pcP;
   cbn [fifo rfifo sw sr rwait rpass rsize wprio rq wfirst wq spin cos
        set_co set_mx set_sr set_sw set_rwait add_try add_entered wfail
-       m_sw m_sr m_rwait m_rpass m_rsize m_wprio m_rq m_wfirst m_wq m_spin].
+       m_sw m_sr m_rwait m_rpass m_rsize m_wprio m_rq m_wfirst m_wq m_spin length].
+
+Ltac rw_flags :=
+  repeat match goal with
+  | H : fifo ?s = _ |- context [fifo ?s] => rewrite H
+  | H : spin ?s = _ |- context [spin ?s] => rewrite H
+  end.
+
+(* ---- events that move two coroutines: the caller c (x -> v) and the coroutine n it resumes / promotes (y -> v1) -- *)
+(* from the second lookup (in the list where c has already moved) back to the original list *)
+Ltac second_lookup :=
+  match goal with
+  | G : nth_error (cos ?s) ?c = Some ?x, G1 : nth_error (cos (set_co ?c ?v _)) ?n = Some ?y, P1 : pc ?y = _ |- _ =>
+      cbn [cos set_co set_mx] in G1;
+      let Gn := fresh "Gn" in let Ne := fresh "Ne" in
+      pose proof G1 as Gn; rewrite (nth_error_set_nth _ (cos s) c n v x G) in Gn;
+      destruct (Nat.eq_dec n c) as [Ne|Ne];
+      [injection Gn as Gn; rewrite <- Gn in P1; cbn [pc upd_pc inc_req inc_got] in P1; discriminate P1|]
+  end.
+
+Ltac arith_facts2 :=
+  match goal with
+  | G : nth_error (cos ?s) ?c = Some ?x, P : pc ?x = _,
+    G1 : nth_error (set_nth ?c ?v (cos ?s)) ?n = Some ?y, P1 : pc ?y = _ |- inv (set_co ?n ?v1 _) =>
+      cfacts (cos s) c x v G; gfacts (cos s) c x G; zfacts (cos s);
+      cfacts (set_nth c v (cos s)) n y v1 G1; zfacts (set_nth n v1 (set_nth c v (cos s)));
+      rewrite P in *; rewrite P1 in *; simp_w
+  end.
+
+Ltac pt2_setup f wf :=
+  match goal with
+  | G : nth_error (cos ?s) ?c = Some ?x, P : pc ?x = _,
+    G1 : nth_error (set_nth ?c ?v (cos ?s)) ?n = Some ?y, P1 : pc ?y = _,
+    Gn : nth_error (cos ?s) ?n = Some ?y,
+    Iocc : forall k, _ + cntl (wf k) (cos ?s) = pcwl f (cos ?s) k
+    |- forall m, _ + cntl (wf m) (set_nth ?n ?v1 _) = pcwl f _ m =>
+      let m := fresh "m" in let Hc := fresh "Hc" in let Hc1 := fresh "Hc1" in let Ho := fresh "Ho" in
+      intros m;
+      rewrite (pcwl_set_nth f (set_nth c v (cos s)) n v1 y m G1), (pcwl_set_nth f (cos s) c v x m G);
+      pose proof (cntl_set_nth (wf m) (cos s) c x v G) as Hc; rewrite P in Hc;
+      pose proof (cntl_set_nth (wf m) (set_nth c v (cos s)) n y v1 G1) as Hc1; rewrite P1 in Hc1;
+      pose proof (Iocc m) as Ho;
+      destruct (Nat.eq_dec m n) as [->|?];
+      [rewrite (pcwl_at f (cos s) n y Gn) in Ho; rewrite P1 in Ho
+      |destruct (Nat.eq_dec m c) as [->|?]; [rewrite (pcwl_at f (cos s) c x G) in Ho; rewrite P in Ho|]]
+  end.
+
+Ltac pt2_first :=
+  match goal with
+  | G : nth_error (cos ?s) ?c = Some ?x, P : pc ?x = _,
+    G1 : nth_error (set_nth ?c ?v (cos ?s)) ?n = Some ?y, P1 : pc ?y = _,
+    Gn : nth_error (cos ?s) ?n = Some ?y,
+    Ifirst : forall n, pcwl nf_w (cos ?s) n = 1 -> wfirst ?s = Some n
+    |- forall m, pcwl nf_w (set_nth ?n ?v1 _) m = 1 -> _ =>
+      let m := fresh "m" in let Hn := fresh "Hn" in
+      intros m Hn;
+      rewrite (pcwl_set_nth nf_w (set_nth c v (cos s)) n v1 y m G1), (pcwl_set_nth nf_w (cos s) c v x m G) in Hn;
+      destruct (Nat.eq_dec m n) as [->|?];
+      [cbn [nf_w add_w parkf_w pc upd_pc] in Hn; try discriminate Hn; try reflexivity
+      |destruct (Nat.eq_dec m c) as [->|?];
+       [cbn [nf_w add_w parkf_w pc upd_pc] in Hn; try discriminate Hn; try reflexivity
+       |try (apply Ifirst; exact Hn)]]
+  end.
+
+Ltac pt2_runr :=
+  match goal with
+  | G : nth_error (cos ?s) ?c = Some ?x,
+    G1 : nth_error (set_nth ?c ?v (cos ?s)) ?n = Some ?y,
+    Irunr : forall n, pcPl runr_ok (cos ?s) n
+    |- forall m, pcPl runr_ok (set_nth ?n ?v1 _) m =>
+      let m := fresh "m" in
+      intros m;
+      rewrite (pcPl_set_nth runr_ok (set_nth c v (cos s)) n v1 y m G1), (pcPl_set_nth runr_ok (cos s) c v x m G);
+      destruct (Nat.eq_dec m n) as [->|?];
+      [cbn [runr_ok pc upd_pc]; try exact I
+      |destruct (Nat.eq_dec m c) as [->|?]; [cbn [runr_ok pc upd_pc]; try exact I | apply Irunr]]
+  end.
+
+Ltac fin_all2 :=
+  first [pt2_setup parkr_w inflocc_w; occ_simpl | pt2_setup parkq_w runwocc_w; occ_simpl
+        | pt2_first | pt2_runr | fin_arith].
+
+Ltac no_first :=
+  exfalso; match goal with Hn : pcwl nf_w (cos ?s) ?n = 1 |- _ =>
+    pose proof (pcwl_ge nf_w (cos s) n); rewrite cntl_nf in * end; lia.
+Ltac rq_nonempty s := destruct (rq s); cbn [length] in *; [lia | exact I].
